@@ -359,3 +359,22 @@ P("C20",
   units=[
    U("c20.race", "c20", "TestRace", "no data race, crash or lock-up under concurrent API/RPC use while transferring", Q(16, 16, 900), T(320, 16), race=True, shrinktime="1s"),
   ])
+
+P("C09",
+  level_text="Bounded random exploration with a model-based state machine over the exported piece-picker API, driven through a thin mirror of the torrent's call protocol: have / have-all, "
+             "allowed-fast, choke, unchoke, snub (only where the torrent would report it), pick for one peer or all idle peers, 'all blocks received' (piece goes to the single writer), write "
+             "done / hash failure (source dropped), disconnect and reconnect, over 1..5 peers, up to 24 pieces of multi-file layouts, rarest-first and sequential mode, end-game limit 1..4, and 0..3 web "
+             "seed sources backed by REAL URL downloaders whose progress the harness releases chunk by chunk through a gated fake HTTP transport (range pick, per-piece results, errors, steals). "
+             "A shadow model is updated by the same ops and checked after every op: a pick is never for a done or writing piece, never for a peer that lacks it, never for a choking peer unless the peer "
+             "allowed that piece as fast, never a second download for a peer; requesters of a piece never exceed the end-game limit; the picker's requester lists equal the mirror's; Available() equals the "
+             "number of pieces held by a connected peer; web-seed ranges [current,End) are pairwise disjoint, inside the torrent, free of done/writing pieces when assigned, and agree with the per-piece "
+             "owner; in sequential mode an unchoking peer with no pickable allowed-fast piece gets the lowest eligible index unless a file-edge piece is taken; no panic from the picker's own assertions.",
+  level_note="Trusted: the mirror of the call protocol (written from torrent_messagehandler.go / torrent_write.go / torrent_webseed.go) and the shadow model. Allowed-fast pieces being taken before lower "
+             "indexes for an unchoked peer in sequential mode is pinned by an existing test and accepted; file-edge pieces are recognised generously (within 1% + one piece of a file end). "
+             "End-game mode is sticky in the implementation; only the numeric limit is asserted.",
+  technique="property-based testing (rapid): model-based stateful testing of the picker with real web-seed downloaders under a harness-owned transport",
+  rule="5..60 ops per history; non-trivial = >= 1 pick and >= 1 of {choke during a download, snub, disconnect, hash failure}; distinct = distinct history",
+  assumptions=["one piece write at a time (the torrent suspends block and web-seed result delivery while a piece is being written)"],
+  units=[
+   U("c09.picker", "c09", "TestPicker", "piece-picker safety invariants vs shadow model", Q(12000, 8), T(800000, 16), min_nontrivial_frac=0.1, env={"VERIF_JOURNAL": "1"}),
+  ])
